@@ -6,6 +6,7 @@ from fractions import Fraction as F
 import common
 from common import rat
 import c11
+from geohash_twice import Unstable, guard, shape_state, twice
 from c11 import ALPHABET, hash_of_cell, split_bits, _ranges, cell_rect
 
 MODULE = 'GeoVerif.Props.C12'
@@ -362,31 +363,48 @@ def _head(line):
     return int(a[1]), int(a[2]), a[3], a[4:]
 
 
+@guard
 def impl(line):
+    """hash_shape / hash_collection observed as a sequence on the SAME hasher and the SAME shape / collection objects:
+    call, edit the returned set / dict (geohash_twice.edit), call again; the answer is the second result (`UNSTABLE …`
+    if it differs from the first).  The inputs must come out of it unedited."""
     gs, G, col, agg = _mods()
     op = line.split(' ', 1)[0].split('.', 1)[1]
     if op == 'hash':
         b, L, _s, toks = _head(line)
         kind, data = parse_shape(toks)
-        r = ' '.join(sorted(G.NiemeyerHasher(L, b).hash_shape(build(kind, data))))
+        obj = build(kind, data)
+        before = shape_state(obj)
+        hasher = G.NiemeyerHasher(L, b)
+        salt = line[:200]
+        res = twice(hasher.hash_shape, obj, salt=salt)
+        if shape_state(obj) != before or (hasher.length, hasher.base) != (L, b):
+            raise Unstable('hash_shape edited its input shape / the hasher')
+        r = ' '.join(sorted(res))
         _impl_cache[line] = r
         return r
     if op == 'coll':
         b, L, aggname, ckind, shapes = parse_coll(line)
         c = (col.Track if ckind == 'track' else col.FeatureCollection)(shapes)
+        order = [id(s) for s in c.geoshapes]
+        before = [shape_state(s) for s in c.geoshapes]
         hasher = G.NiemeyerHasher(L, b)
+        salt = line[:200]
         if aggname == 'len':
-            d = hasher.hash_collection(c)
+            d = twice(hasher.hash_collection, c, salt=salt)
             show = str
         elif aggname == 'total_time':
-            d = hasher.hash_collection(c, agg_fn=agg.total_time)
+            d = twice(hasher.hash_collection, c, salt=salt, agg_fn=agg.total_time)
             show = rat
         elif aggname == 'unique_entities':
-            d = hasher.hash_collection(c, agg_fn=agg.unique_entities)
+            d = twice(hasher.hash_collection, c, salt=salt, agg_fn=agg.unique_entities)
             show = rat
         else:
-            d = hasher.hash_collection(c, agg_fn=lambda l: '.'.join(str(s.properties['vid']) for s in l))
+            d = twice(hasher.hash_collection, c, salt=salt,
+                      agg_fn=lambda l: '.'.join(str(s.properties['vid']) for s in l))
             show = str
+        if [id(s) for s in c.geoshapes] != order or [shape_state(s) for s in c.geoshapes] != before:
+            raise Unstable('hash_collection edited the collection / its shapes')
         return ' '.join(f'{k}={show(v)}' for k, v in sorted(d.items())) or '-'
     raise ValueError('unknown op ' + op)
 
@@ -519,6 +537,7 @@ def spec_for(line):
 # clauses only an external judge can decide (H3 library; analytic circle): `np-` streams, model=False
 
 
+@guard
 def np_impl(line):
     gs, G, col, _agg = _mods()
     import h3
@@ -526,13 +545,13 @@ def np_impl(line):
     op = a[0]
     if op == 'np-h3.point':
         res, x, y = int(a[1]), float(F(a[2])), float(F(a[3]))
-        r = G.H3Hasher(res).hash_shape(gs.GeoPoint(gs.Coordinate(x, y)))
+        r = twice(G.H3Hasher(res).hash_shape, gs.GeoPoint(gs.Coordinate(x, y)), salt=line)
         return ' '.join(sorted(r))
     if op == 'np-h3.poly':
         res = int(a[1])
         kind, data = parse_shape(a[2:])
         obj = build(kind, data)
-        cells = G.H3Hasher(res).hash_shape(obj)
+        cells = twice(G.H3Hasher(res).hash_shape, obj, salt=line[:200])
         mem = exact_members(kind, data, obj)
         bad = 0
         for c in cells:
@@ -544,7 +563,7 @@ def np_impl(line):
     if op == 'np-h3.coll':
         res = int(a[1])
         shapes = [build(*parse_shape(sec.split())) for sec in ' '.join(a[2:]).split(' || ')]
-        d = G.H3Hasher(res).hash_collection(col.FeatureCollection(shapes))
+        d = twice(G.H3Hasher(res).hash_collection, col.FeatureCollection(shapes), salt=line[:200])
         return ' '.join(f'{k}={v}' for k, v in sorted(d.items()))
     if op == 'np-sliver.circ':
         b, L = int(a[1]), int(a[2])
@@ -557,7 +576,7 @@ def np_impl(line):
         key = (b, L, cx, cy, r)
         if key not in _circle_cache:
             _circle_cache.clear()
-            _circle_cache[key] = G.NiemeyerHasher(L, b).hash_shape(circ)
+            _circle_cache[key] = twice(G.NiemeyerHasher(L, b).hash_shape, circ, salt=repr(key))
         cells = _circle_cache[key]
         if G._coord_to_niemeyer(q, L, b) in cells:
             return 'present'
@@ -855,7 +874,7 @@ def check(run):
         tris = [(p, q_, r_) for k, p in enumerate(pts) for m, q_ in enumerate(pts[k + 1:], k + 1) for r_ in pts[m + 1:]
                 if cross(p, q_, r_) != 0]
         if run.quick:
-            segs, rects, tris = rng.sample(segs, 70), rng.sample(rects, 35), rng.sample(tris, 50)
+            segs, rects, tris = rng.sample(segs, 50), rng.sample(rects, 25), rng.sample(tris, 40)
         elif b != 32:
             segs, rects, tris = rng.sample(segs, 150), rects, rng.sample(tris, 300)
         for p, q_ in segs:
@@ -886,7 +905,7 @@ def check(run):
                     forms.append(('notched', [(cx - rx, cy - ry), (cx + rx, cy - ry), (cx + rx, cy + ry), (cx, cy + ry),
                                               (cx, cy + 2), (cx - 2, cy + 2), (cx - 2, cy + ry), (cx - rx, cy + ry)]))
         if run.quick:
-            forms = rng.sample(forms, 24)
+            forms = rng.sample(forms, 16)
         for name, f in forms:
             k = rng.randrange(len(f))
             f = f[k:] + f[:k]
@@ -993,7 +1012,7 @@ def check(run):
     mark('hash_collection')
 
     # ---- analytic circle vs the cells of its 36-gon (I3 / F12b): only the keyed finding may appear --------
-    n = run.scale(6, 60)
+    n = run.scale(4, 60)
     lines = [f'np-sliver.circ {b} {L} {rat(cx)} {rat(cy)} {rat(r)} {rat(br)} {rat(0.9999)}' for b, L, cx, cy, r, br in SLIVER_WITNESSES]
     for _ in range(n):
         b = rng.choice([16, 32, 64])
